@@ -118,9 +118,66 @@ def run(ctx, rep):
                 ok = received_edge(b, cfg, flow, bi)
                 rep.ob("wait-status", f"{b.key}:return-0", ok,
                        "the parent returns 0 only on the edge where fread delivered the child's success byte", b.file, rv.get("l") or b.line)
-        # on the not-exited edge the returned value must be a non-zero constant or derived from WTERMSIG
-        if n and fb:
-            pass
+        # the status word that is decoded: when waitpid's own result is not tested, a failing waitpid (ECHILD under an
+        # inherited SIGCHLD=SIG_IGN, EINTR) leaves the initial value in place, so that value must decode as a failure
+        for bi, t in flow.calls():
+            if callee_key(t["f"]) != "libc::waitpid" or len(t["args"]) < 2:
+                continue
+            tested = [u for u in uses_of_local(b, t["dest"][0]) if u[1] != "drop"] if not t["dest"][1] else [1]
+            root = None
+            cur = op_place(t["args"][1])
+            for _ in range(8):
+                if cur is None:
+                    break
+                ds = flow.defs.get(cur[0], [])
+                if len(ds) == 1 and ds[0][1] != "call" and ds[0][3]["k"] in ("ref", "rawptr"):
+                    root = ds[0][3]["p"][0]
+                    cur = (root, [])
+                    continue
+                if len(ds) == 1 and ds[0][1] != "call" and ds[0][3]["k"] in ("use", "cast") and op_place(ds[0][3]["a"]):
+                    cur = op_place(ds[0][3]["a"])
+                    continue
+                break
+            if root is None:
+                rep.lost("wait-status", f"status word passed to waitpid in {b.key}")
+                continue
+            inits = []
+            for dbi, si, proj, payload in flow.defs.get(root, []):
+                if si != "call" and not proj and payload["k"] == "use" and payload["a"][0] == "k":
+                    inits.append(payload["a"][1].get("val"))
+                elif si != "call" and not proj:
+                    inits.append(None)
+            for c in inits:
+                if tested:
+                    rep.ob("wait-status", f"{b.key}:waitpid-result", True, "waitpid's return value is tested", b.file, t["l"])
+                    continue
+                if c is None:
+                    ok, what = False, "initialised from a non-constant"
+                else:
+                    w = c & 0xFFFFFFFF
+                    exited = (w & 0x7F) == 0
+                    code = (w >> 8) & 0xFF
+                    ok = not (exited and code == 0)
+                    what = f"initial value {c}: WIFEXITED={exited}, WEXITSTATUS={code}"
+                rep.ob("wait-status", f"{b.key}:unfilled-status", ok,
+                       f"waitpid's result is not tested, so when it fails the status word keeps its initial value, which must not decode as `exited with 0` ({what})",
+                       b.file, t["l"])
+            if not inits:
+                rep.ob("wait-status", f"{b.key}:unfilled-status", bool(tested), "status word has no initialiser in this body and waitpid's result is not tested", b.file, t["l"])
+        # on the not-exited edge the returned value must not be a zero constant
+        for dbi, si, proj, payload in flow.defs.get(0, []):
+            if si == "call" or dbi not in fb:
+                continue
+            rv = payload
+            if rv["k"] == "use" and rv["a"][0] == "k":
+                rep.ob("wait-status", f"{b.key}:not-exited-status", rv["a"][1].get("val") not in (0, None),
+                       f"on the WIFEXITED==false edge the function returns the constant {rv['a'][1].get('val')}", b.file, b.line)
+            elif rv["k"] in ("bin", "use", "cast"):
+                leaves = flow.origins(rv["a"]) | (flow.origins(rv["b"]) if rv["k"] == "bin" else set())
+                nz = any(x[0] == "const" and isinstance(x[1], int) and x[1] != 0 for x in leaves)
+                sig = any(x[0] == "call" and x[1] == "libc::WTERMSIG" for x in leaves)
+                rep.ob("wait-status", f"{b.key}:not-exited-status", nz and sig,
+                       "on the WIFEXITED==false edge the status is a non-zero constant plus WTERMSIG (never 0: WTERMSIG >= 1 there and the constant keeps it non-zero)", b.file, b.line)
 
     # ---- io-must-use -----------------------------------------------------------------------------
     IGNORE_OK = {
